@@ -193,5 +193,7 @@ structure Program where
   cbYield : Cb → Node → Nat := fun _ _ => 0
   /-- a collaborator that fails: the given callback raises this exception (every time, before suspending) -/
   cbRaise : Cb → Node → Option Exc := fun _ _ => none
+  /-- a `get_default` that fails: it raises this exception (every time it is called) instead of returning a value -/
+  dfltRaise : Node → Option Exc := fun _ => none
 
 end MLPE
